@@ -28,12 +28,12 @@ func regSumm(p *Prog, d int) *Summ {
 
 // regAnchors resolves the regulator's internal routines by role (never by name).
 type regAnchors struct {
-	breaker    *ssa.Function            // deletes a table entry and decrements the table count
-	poppers    map[*ssa.Function]bool   // pop the head of the waiting queue in a loop
-	enqueuer   *ssa.Function            // appends incoming players to the waiting queue
-	drainer    *ssa.Function            // stores the undispatched remainder into the queue
-	dispatcher *ssa.Function            // invokes the assign-players callback
-	opener     *ssa.Function            // invokes the request-table callback
+	breaker    *ssa.Function          // deletes a table entry and decrements the table count
+	poppers    map[*ssa.Function]bool // pop the head of the waiting queue in a loop
+	enqueuer   *ssa.Function          // appends incoming players to the waiting queue
+	drainer    *ssa.Function          // stores the undispatched remainder into the queue
+	dispatcher *ssa.Function          // invokes the assign-players callback
+	opener     *ssa.Function          // invokes the request-table callback
 	all        map[*ssa.Function]bool
 }
 
@@ -340,7 +340,9 @@ func runRegLockstep(c *Ctx, rule string) {
 			}
 		}
 		for _, ps := range paths {
-			if !hasCond(ps, func(v *Val) bool { return v.K == KAtom && v.At.Op == "b" && !v.Neg && strings.HasPrefix(v.At.L, "has(recv.tables") }) {
+			if !hasCond(ps, func(v *Val) bool {
+				return v.K == KAtom && v.At.Op == "b" && !v.Neg && strings.HasPrefix(v.At.L, "has(recv.tables")
+			}) {
 				continue
 			}
 			total := ps.storesTo("regulator.regulator.playerCount")
@@ -471,7 +473,9 @@ func runRegLockstep(c *Ctx, rule string) {
 			if len(del) != 1 || len(cnt) != 1 || del[0].Args[1].String() != "param:"+bt.Params[1].Name() || cnt[0].Val.asAff().String() != "recv.tableCount - 1" {
 				bad = append(bad, "deleting the table entry and decrementing the table count do not happen together")
 			}
-			if !hasCond(ps, func(v *Val) bool { return v.K == KAtom && v.At.Op == "b" && !v.Neg && strings.HasPrefix(v.At.L, "has(recv.tables") }) {
+			if !hasCond(ps, func(v *Val) bool {
+				return v.K == KAtom && v.At.Op == "b" && !v.Neg && strings.HasPrefix(v.At.L, "has(recv.tables")
+			}) {
 				bad = append(bad, "the table count is decremented without checking that the table exists")
 			}
 		}
@@ -649,7 +653,10 @@ func runRegQueue(c *Ctx) {
 						if !head {
 							bad = append(bad, "the queue's head is dropped without being handed out ("+e.Pos+")")
 						}
-					case strings.HasPrefix(v.String(), "loopval:") || func() bool { st, ok := e.Instr.(*ssa.Store); return ok && remainderOnly(st.Val, resolveRegAnchors(p).dispatcher, nil, 0) }():
+					case strings.HasPrefix(v.String(), "loopval:") || func() bool {
+						st, ok := e.Instr.(*ssa.Store)
+						return ok && remainderOnly(st.Val, resolveRegAnchors(p).dispatcher, nil, 0)
+					}():
 						// the undispatched remainder: its sources must be dispatch remainders or the queue itself
 						kinds["remainder"] = true
 						if st, ok := e.Instr.(*ssa.Store); ok {
